@@ -30,7 +30,18 @@ func resolveSilSet(o *Ob) *silSetFacts {
 	o.Check(e.Arg(f.get, 0) == "recv" && e.Arg(f.get, 1) == "p1.Id", "get-args", "Set must look up the submitted id in its own state", f.get)
 	gs := e.X(fn, f.get.(*ssa.Call))
 	f.prev = gs + "#0"
-	f.found = L(gs+"#1", true)
+	// "the id is known": getSilence's second result, or equivalently a non-nil first result (getSilence
+	// returns (nil, false) exactly when the id is unknown — asserted by rule C12.1's get-contract — and a
+	// stored entry without a silence would already crash canUpdate)
+	f.found = LitM{gs + "#1 (or " + gs + "#0 != nil)", func(l Lit) bool {
+		return l.Atom == gs+"#1" && l.Pos || l.Atom == "("+gs+"#0 == nil)" && !l.Pos
+	}}
+	gsf := o.Fn("(*am/silence.Silences).getSilence")
+	has := LRe(`recv\.st\[p0\]#1`, true)
+	o.Table(gsf, "get-contract", []Row{
+		{Name: "unknown id", Assume: A(has.Neg()), Ret: [][]string{Vals("nil"), Vals("false")}},
+		{Name: "known id", Assume: A(has), Ret: [][]string{Vals("recv.st[p0]#0.Silence"), Vals("true")}},
+	})
 	cu := o.One(e.Calls(fn, "am/silence.canUpdate"), "canupdate", "Set must decide in-place update with canUpdate", fn)
 	o.Check(e.Arg(cu, 0) == f.prev && e.Arg(cu, 1) == "p1" && strings.Contains(e.Arg(cu, 2), "nowUTC"), "canupdate-args", "canUpdate must compare the stored silence with the submitted one at the current time, got "+e.X(fn, cu.(*ssa.Call)), cu)
 	f.canUpd = L(e.X(fn, cu.(*ssa.Call)), true)
